@@ -95,9 +95,54 @@ def run(ctx, run):
     _restart_inside_failed_attempt(ctx, run)
     _stop_inclusive(ctx, run)
     _minimisation_keeps_acceptance(ctx, run)
+    _enter_page_at_far_end(ctx, run, walk)
     # the walk visits the subpage range the statistics recorded: the range must not be truncated (shared with C10)
     from . import C10
     C10._subno_range_fits(ctx, run)
+
+
+def _enter_page_at_far_end(ctx, run, f):
+    """The page walk visits the subpages of a page in the direction of the walk: stepping to the previous page it
+    enters that page at its highest subpage (subno_max), stepping to the next page at its lowest (subno_min).  Entering
+    at the wrong end skips all other subpages of every page in that direction."""
+    run.touch(f)
+    dirp = None
+    for p in f.params:
+        if "it" in p and p["it"][1] and p["name"] not in ("pgno", "subno"):
+            dirp = p["name"]
+    n = 0
+    for bid, i in flow.all_events(f):
+        for lhs, var, op, rhs in flow.stores(f, i):
+            if lhs is None or rhs is None or op != "=":
+                continue
+            r = f.exprs[ex.skip(f, rhs)]
+            while r["k"] == "cast":
+                r = f.exprs[ex.skip(f, r["c"][0])]
+            if not (r["k"] == "mem" and r["member"] in ("subno_min", "subno_max")):
+                continue
+            back = fwd = False
+            for a in atoms.atoms_at(f, i):
+                if a.R is None or a.R.const != 0 or not a.L.locals or a.L.fields:
+                    continue
+                if dirp is not None and dirp not in a.L.locals:
+                    continue
+                if a.rel == "<":
+                    back = True
+                elif a.rel in (">=", ">"):
+                    fwd = True
+            if back == fwd:
+                continue
+            n += 1
+            want = "subno_max" if back else "subno_min"
+            key = "RF-TAB:%s:enter-page-%s" % (f.name, "backward" if back else "forward")
+            if r["member"] == want:
+                run.holds("RF-TAB", key, "walking %s a page is entered at %s" % ("backward" if back else "forward", want), ex.loc(f, i))
+            else:
+                run.violation("RF-TAB", key, "walking %s `%s` enters the page at %s: only that one subpage of every page is "
+                              "visited in this direction, matches on the others are never found"
+                              % ("backward" if back else "forward", ex.pretty(f, i), r["member"]), ex.loc(f, i),
+                              witness={"function": f.name, "direction": "backward" if back else "forward"})
+    run.floor("page entries of the walk by direction", n, 2)
 
 
 def _metachars(ctx, run):
